@@ -490,6 +490,7 @@ def main():
         else:
             violations.append(f)
     rc = 0
+    extra = 0
     for k, f in known_hits[:20]:
         log("KNOWN-FINDING: property=%s %s" % (pid, k["what"]))
     replay_path = None
@@ -502,6 +503,53 @@ def main():
         log("VIOLATION property=%s replay=%s" % (pid, replay_path))
         rc = 1
     elif not proof_ok or disagreements or not lean["driver_ok"]:
+        # A proof obligation or the correspondence is broken and the cases of this run show no input on which the PROPERTY fails:
+        # search further before saying so — the same generators under other seeds (with both generic layers), implementation side
+        # only, judged by the independent oracle.  A hit is reported as a concrete failing input.
+        found = None
+        extra = 0
+        if tier == "quick" and not os.environ.get("VERIF_NO_SEARCH"):
+            t_s = time.time()
+            for k in range(1, 7):
+                if time.time() - t_s > 90:
+                    break
+                rng2 = random.Random((seed + k) * 1000003 + int(hashlib.sha1(pid.encode()).hexdigest()[:8], 16))
+                try:
+                    cs2 = list(mod.generate(rng2, "quick"))
+                    b2 = list(cs2)
+                    cs2.extend(sibling_history_cases(b2, rng2, 120))
+                    cs2.extend(structured_sibling_cases(b2, rng2, 3))
+                    o2 = run_lines([backends[0][1]], [c.line for c in cs2])
+                except Exception as e:
+                    log("[%s] search round %d could not run: %s" % (pid, k, e))
+                    break
+                extra += len(cs2)
+                g = getattr(mod, "check_output", None)
+                for c, o in zip(cs2, o2):
+                    f = None
+                    if c.expect is not None:
+                        try:
+                            f = c.expect(o) if callable(c.expect) else (None if c.expect == o else "expected %r" % (c.expect,))
+                        except Exception as e:
+                            f = "oracle could not interpret output (%s)" % e
+                    if f is None and g is not None:
+                        f = g(c, o)
+                    if f and not match_known(known, pid, dict(line=c.line)):
+                        if found is None or len(c.line) < len(found["line"]):
+                            found = dict(line=c.line, backend="num", impl=o, why=f, kind=c.kind, search_seed=seed + k)
+                if found:
+                    break
+            log("[%s] searched %d further generated cases (other seeds) for a failing input: %s" % (pid, extra, "found" if found else "none found"))
+        if found:
+            replay_path = os.path.join(rdir, "%s_%d.json" % (pid, int(time.time())))
+            json.dump(dict(property=pid, kind="oracle", line=found["line"], backend="num", impl_out=found["impl"], why=found["why"],
+                           found_by="search after a broken obligation / correspondence", theorems_not_checked=lean["failed"],
+                           correspondence_differences=len(disagreements)), open(replay_path, "w"), indent=1)
+            log("[%s] failing input found by the search: %s" % (pid, json.dumps(found)[:600]))
+            log("VIOLATION property=%s replay=%s" % (pid, replay_path))
+            violations.append(found)
+            rc = 1
+    if rc == 0 and (not proof_ok or disagreements or not lean["driver_ok"]):
         replay_path = os.path.join(rdir, "%s_%d.json" % (pid, int(time.time())))
         what = {}
         if not proof_ok:
@@ -510,7 +558,7 @@ def main():
         if disagreements:
             what["first_correspondence_difference"] = disagreements[0]
             what["correspondence_differences"] = len(disagreements)
-        json.dump(dict(property=pid, kind="tie-or-proof-broken", searched_cases=len(cases), **what), open(replay_path, "w"), indent=1)
+        json.dump(dict(property=pid, kind="tie-or-proof-broken", searched_cases=len(cases) + extra, **what), open(replay_path, "w"), indent=1)
         if disagreements:
             log("[%s] %d model/implementation disagreement(s); first: %s" % (pid, len(disagreements), json.dumps(disagreements[0])[:700]))
         if not proof_ok:
